@@ -168,6 +168,9 @@ def tlc(module, cfg=None, *, workers=1, simulate=None, depth=None, env=None, tim
         jopts.append("-Dtlc2.tool.queue.IStateQueue=StateDeque")
     cmd = ["timeout", str(timeout), "java"] + jopts + ["-cp", TLA_JAR, "tlc2.TLC",
            "-workers", str(workers), "-metadir", str(meta), "-noGenerateSpecTE",
+           # no checkpoints: a trace judge is one long behaviour, and TLC's checkpoint (every 30 minutes) cannot write behaviours of
+           # 65 536 or more states ("TLC can only handle behaviors of length up to 65535")
+           "-checkpoint", "0",
            "-config", str(SPEC / (cfg + ".cfg"))]
     if simulate:
         cmd += ["-simulate", simulate]
